@@ -204,7 +204,15 @@ pub fn cases(tier: &str, seed: u64) -> Vec<Case> {
     let tiny = tiny_txt_contents();
     for it in 0..(n + tiny.len()) {
         let k = r.below(5) as usize;
-        let strings: Vec<Vec<u8>> = if it >= n { tiny[it - n].clone() } else { (0..k).map(|_| {
+        // one record in sixteen holds dozens of short strings whose keys repeat (with another value each time, in no
+        // order): "the first occurrence of a key wins" on records past what a short-slice sort keeps in order; the first
+        // four of them deterministically
+        let many = it < 4 || r.chance(1, 16);
+        let strings: Vec<Vec<u8>> = if it >= n { tiny[it - n].clone() } else if many {
+            let count = if it < 4 { [21usize, 48, 120, 255][it] } else { r.range(21, 160) as usize };
+            let keys = ["mode", "Mode", "k", "id", "path", "v", "é", "x y", "flag"];
+            (0..count).map(|j| { let key = keys[(r.below(keys.len() as u64) as usize + if it < 4 { j * 5 } else { 0 }) % keys.len()]; match (j + r.below(3) as usize) % 4 { 0 => key.as_bytes().to_vec(), 1 => format!("{}=", key).into_bytes(), _ => format!("{}={}", key, j).into_bytes() } }).collect()
+        } else { (0..k).map(|_| {
             let l = r.below(14) as usize;
             match r.below(5) {
                 0 => r.bytes(l),
